@@ -29,6 +29,27 @@ def build_base(rnd, ffr=False):
     return s
 
 
+def build_big_base(rnd):
+    """many unknowns (more than 8: matrix rows and the pivot bitmap span several bytes), coded fragments arriving one by one"""
+    blk, sz = 256, rnd.choice([1, 2, 4, 8])
+    slot = session.DRO + 4096
+    n = rnd.randint(20, 40)
+    cap = session.max_l(slot, sz)
+    nlost = rnd.randint(9, min(n - 1, cap, 20))
+    img = ts004.make_image(rnd, n, sz)
+    lost = set(rnd.sample(range(1, n + 1), nlost))
+    seq = [i for i in range(1, n + 1) if i not in lost] + list(range(n + 1, n + 1 + nlost + 8))
+    s = session.Scn(4, slot, blk)
+    s.meta = dict(n=n, sz=sz, cap=cap, img=img, seq=seq, mode="big-loss", lost=sorted(lost), ffr=False, big=True)
+    s.meta["fb_before"] = s.add("fb"); s.meta["fbvalid_before"] = s.add("validfb")
+    s.meta["start_op"] = s.add("start %d %d" % (sz, n))
+    s.meta["seg_ops"] = [s.add(session.seg_op(img, n, sz, i, False)) for i in seq]
+    s.meta["done_op"] = s.add("done")
+    s.meta["bl_op"] = s.add("bl"); s.meta["valid_op"] = s.add("validbl"); s.meta["dump_op"] = s.add("dumpbl %x %d" % (session.DRO, n * sz))
+    s.meta["fb_op"] = s.add("fb"); s.meta["fbvalid_after"] = s.add("validfb"); s.meta["hdrs_op"] = s.add("hdrs")
+    return s
+
+
 def crash_case(base, refout, counts, k, resend):
     me = base.meta
     loc = crash.locate(counts, k)
@@ -122,7 +143,7 @@ def run(chk):
     chk.prove()
     rnd = random.Random(chk.seed)
     nbase, limit = (10, 60) if chk.quick() else (300, 400)
-    bases = [build_base(rnd) for _ in range(nbase)]
+    bases = [build_base(rnd) for _ in range(nbase)] + [build_big_base(rnd) for _ in range(3 if chk.quick() else 60)]
     lines, impl, refouts = session.run(chk, bases, stream="session-crash-ref")
     cases = []
     for b, ro in zip(bases, refouts):
@@ -133,9 +154,15 @@ def run(chk):
         cc = core_counts[b.meta["start_op"]:b.meta["done_op"] + 1]
         total = sum(cc)
         sub = session.Scn(b.ns, b.slot, b.blk); sub.ops = b.ops
-        idxs, _ = crash.interesting_indices(b, ro[b.meta["start_op"]:b.meta["done_op"] + 1], rnd, limit)
+        idxs, _ = crash.interesting_indices(b, ro[b.meta["start_op"]:b.meta["done_op"] + 1], rnd, 10**9 if b.meta.get("big") else limit)
         # indices are relative to the first core op; the crash case arms the counter right before it
         shifted = [0] * b.meta["start_op"] + cc
+        if b.meta.get("big"):
+            # power loss while the parity rows are being collected / during back substitution
+            first_coded = b.meta["seg_ops"][len([i for i in b.meta["seq"] if i <= b.meta["n"]])]
+            idxs = [k for k in idxs if (crash.locate(shifted, k) or (0, 0))[0] >= first_coded + 6]
+            if len(idxs) > limit:
+                keep = set(rnd.sample(idxs, limit)); idxs = [k for k in idxs if k in keep]
         for k in idxs:
             for resend in (True, False):
                 c = crash_case(b, ro, shifted, k, resend)
@@ -155,7 +182,7 @@ def run(chk):
         nt.append(l)
     chk.note_cases("session-crash", clines, nt, sample_n=1, dist=dist)
     return chk.finish(level="proof",
-        rule="session-crash: for each base delivery (capacity >= 1, up to 6 losses, three delivery orders) power is lost at every modifying flash operation of start_update, every handle_segment and check_and_mark_done "
+        rule="session-crash: for each base delivery (capacity >= 1, up to 6 losses, three delivery orders; plus big-loss bases with 9..20 losses where power is lost from the seventh coded fragment on) power is lost at every modifying flash operation of start_update, every handle_segment and check_and_mark_done "
              "(all boundaries; inside long erase runs the first, second and last block; sampled when a script has more than %d), each with both continuations (interrupted fragment re-sent / lost), then reboot, try_recover, remainder, one full data pass, final check; "
              "non-trivial = every crash case; distinct by case text" % limit,
         trusted=core.TRUSTED_COMMON + ["C06: power loss = prefix of the operation log (block-atomic erase); torn programs are C04's"])
